@@ -17,7 +17,7 @@ RULE = (
     "the expectation computed from the spec and the driver's public attributes (one per enabled property of each addressed "
     "device or only the named one; device/name/group/label/state/perm/rule/timeout; one child per enabled element with "
     "name/label/current value/number format,min,max,step); no definition from unaddressed devices or for unknown names; and EVERY "
-    "message emitted during the history and the reply is serialized, re-parsed by the library's parser - from the bytes, and the way its transports read them (decoded as Latin-1, framed by Buffer) - and read back unchanged. "
+    "message emitted during the history and the reply is serialized, re-parsed by the library's parser - from the bytes, and once more through the library's own client read loop (its decoding and framing) - and read back unchanged. "
     "Non-trivial: the addressed device has >= 1 disabled and >= 1 enabled property, or >= 1 op changed the state before the request."
 )
 ASSUMPTIONS = [
@@ -144,19 +144,44 @@ def parse_back(msg, where):
         raise Failure(f"emitted-unparsable:{msg.__class__.tag_name()}:{detail}", f"{where}: {type(e).__name__}: {e} on {wire[:400]!r}")
     if gen.view(back) != gen.view(msg):
         raise Failure(f"emitted-reads-back-differently:{msg.__class__.tag_name()}", f"{where}: {gen.view(msg)} -> {gen.view(back)}")
-    # ... and the way every transport of the library reads it: bytes decoded as Latin-1, framed by Buffer, parsed from text
+    # ... and is read once more, at the end of the case, through one of the library's own read loops (transport_readback)
     if isinstance(wire, (bytes, bytearray)):
-        from indi.transport.buffer import Buffer
+        _EMITTED.append((bytes(wire), msg, where))
 
+
+_EMITTED = []
+
+
+def transport_readback():
+    """Every message emitted in the case, as the bytes to_string() gave, through the library's own client-side read loop
+    (its decoding, its framing; no junk threshold): read back unchanged and in order."""
+    from indi.transport.client.tcp import ConnectionHandler
+
+    from harness import net
+
+    items = list(_EMITTED)
+    _EMITTED.clear()
+    if not items:
+        return
+    loop = net.new_loop()
+    try:
         got = []
-        try:
-            b = Buffer()
-            b.append(bytes(wire).decode("latin1"))
-            b.process(got.append)
-        except Exception as e:  # noqa
-            raise Failure(f"emitted-unreadable-by-transport:{msg.__class__.tag_name()}", f"{where}: {type(e).__name__}: {e} on {wire[:400]!r}")
-        if len(got) != 1 or gen.view(got[0]) != gen.view(msg):
-            raise Failure(f"emitted-reads-back-differently:through-transport-decoding:{msg.__class__.tag_name()}", f"{where}: {gen.view(msg)} -> {[gen.view(g) for g in got]}")
+        reader, writer = net.FakeReader(loop), net.FakeWriter(loop)
+        handler = ConnectionHandler(reader, writer, got.append, for_blobs=True)
+        task = loop.create_task(handler.wait_for_messages())
+        loop.drain()
+        for wire, _msg, _where in items:
+            reader.feed(wire)
+            loop.drain()
+        if task.done() and not task.cancelled() and task.exception() is not None:
+            exc = task.exception()
+            raise Failure(f"emitted-unreadable-by-transport:{type(exc).__name__}", f"the client read loop died on the emitted traffic: {type(exc).__name__}: {exc}")
+        for k, (wire, msg, where) in enumerate(items):
+            if k >= len(got) or gen.view(got[k]) != gen.view(msg):
+                back = gen.view(got[k]) if k < len(got) else None
+                raise Failure(f"emitted-reads-back-differently:through-a-transport:{msg.__class__.tag_name()}", f"{where}: {gen.view(msg)} -> {back} (message {k} of {len(items)}, {len(got)} read)")
+    finally:
+        loop.shutdown()
 
 
 class Recorder:
@@ -181,6 +206,7 @@ def check_request(case):
     router = Router()
     rec = Recorder()
     router.register_client(rec.client)
+    _EMITTED.clear()
     dep = drivers.Deployment(case["devices"], router)
     if case.get("proxy"):
         # the library's own Proxy driver (unconnected) next to the generated ones: it is handed every client message
@@ -249,6 +275,7 @@ def check_request(case):
             continue
         else:
             raise Failure(f"reply-unexpected:{tag}", f"getProperties(device={devname!r}, name={name!r}) elicited {tag}")
+    transport_readback()
     keys = sorted((m.device, m.name) for m in got_defs)
     if keys != sorted(want):
         missing = sorted(set(want) - set(keys))
